@@ -29,6 +29,9 @@ var solvers = []SolverCfg{
 	{"cvc5-1.0", func(f string, to int, seed int) []string {
 		return []string{"cvc5", "--lang=smt2", fmt.Sprintf("--tlimit=%d", to*1000), fmt.Sprintf("--seed=%d", seed), f}
 	}},
+	{"z3-new-5.1.0-mbqi", func(f string, to int, seed int) []string {
+		return []string{"z3-new", fmt.Sprintf("smt.random_seed=%d", seed), fmt.Sprintf("-T:%d", to), f}
+	}},
 }
 
 var coverSolvers = []SolverCfg{
@@ -127,6 +130,7 @@ func (s *Solver) discharge(ob *Obligation, query string, stage int) {
 			ob.Status = "discharged"
 			ob.Solver = solver
 			ob.TimeS = el
+			os.Remove(file)
 			os.MkdirAll(filepath.Dir(cacheFile), 0o755)
 			os.WriteFile(cacheFile, []byte(want+" "+solver+"\n"), 0o644)
 			return true
@@ -147,6 +151,9 @@ func (s *Solver) discharge(ob *Obligation, query string, stage int) {
 		record(res, solvers[0].Name, el)
 		ob.TimeS = el
 		ob.Solver = solvers[0].Name + "=" + res
+		if res != "unsat" && res != "error" {
+			os.Remove(file)
+		}
 		if res == "unsat" {
 			ob.Status = "failed"
 		} else if res == "error" {
@@ -325,6 +332,9 @@ func (s *Solver) splitDischarge(ob *Obligation) bool {
 			}
 		}
 		cancel()
+		if ok {
+			os.Remove(file)
+		}
 		if !ok {
 			ob.Output += fmt.Sprintf("\npath %d/%d not discharged: %s", i+1, len(ob.split), file)
 			return false
